@@ -13,9 +13,17 @@ Case grammar (one line per case; doubles as C99 hex floats):
   lik s n b                        -> loglik lik | PMF_Poisson(s+b, n)
   lik0 s n                         -> the same through the two-argument calls (default background argument)
   likseq m (s n b)*                -> per call, in this order in one process: loglik lik | per call PMF_Poisson(s+b, n)
+  liksess m (L s n b | L0 s n | B S N Bg | B0 S N)*
+                                   -> per request, in this order in one process: loglik lik.  A session mixes single-bin and binned
+                                      requests, through the calls with and without the background argument, and may contain requests
+                                      outside the property's ranges that the library answers without terminating (total expectation
+                                      0, negative, 1e-300, 1e300, inf, NaN; counts beyond 500; empty histograms): signal-strength scans
+                                      that start at strength 0, scans down to 0 and up again, such a request right before a request
+                                      with the same / another count.  Clauses are evaluated on the in-range requests of the session.
   binned S N B (lists)             -> loglik lik | per bin: loglik lik
   binned0 S N                      -> the same through the overloads without a background argument
-  kde n (v w)* xmin xmax bw        -> 150 ordinates at the tabulation abscissae | 149 mid-segment ordinates, Interpolation::Integrate
+  kde n (v w)* xmin xmax bw        -> 150 ordinates at the tabulation abscissae | 149 mid-segment ordinates, Interpolation::Integrate,
+                                      then per segment the ordinates at 1/4 and 3/4 of it
   kde0 n (v w)* xmin xmax          -> the same through the call without a bandwidth argument (default: automatic bandwidth)
   Sizes: besides the short lists of the streams per function, every container argument and every run of calls is driven on a ladder
   2^k-1, 2^k, 2^k+1 / round decimal / random sizes: 31..4200 bins (20000 thorough), 63..520 KDE samples (2100), 31..401 chi-bar weights,
@@ -32,7 +40,7 @@ EPS = 2.0 ** -53
 RULE = ("a case counts as non-trivial if one of its arguments lies on a support boundary (x = x_min, x_max, 0, k = trials, mean 0) or in a tail "
         "(CDF < 1e-6 or > 1-1e-6), or the degrees of freedom / Poisson mean / trials are in the top decade of the property's range "
         "(dof >= 40, mean >= 100, trials >= 17, counts >= 50), or it is a malformed request that must terminate the process, or a KDE with "
-        "pseudo-data (>= 3 samples), a likelihood with signal exactly 0, a sequence of >= 2 likelihood calls in one process, a binned likelihood with >= 2 bins; "
+        "pseudo-data (>= 3 samples), a likelihood with signal exactly 0, a sequence / session of >= 2 likelihood requests in one process, a binned likelihood with >= 2 bins; "
         "distinct by case text")
 LEVEL_TEXT = (
     "Theorems (Coq, all real arguments, over the same Gallina terms that are extracted and run): uniform, exponential, normal and Maxwell-Boltzmann: density >= 0, "
@@ -94,7 +102,12 @@ def resolve(protos):
     if need:
         try:
             exe = vbuild.build_harness(os.path.join(vbuild.VERIF, "harness", "C07.cpp"), vbuild.build_lib())
-            out = run_exe(exe, [_call_line(n, a) for n, a in need], os.path.join(vbuild.BUILD, "run", PID), "oracle")
+            # a directory and a name of this run's own: several checks of this property may run at the same time (seeded copies, seeds)
+            wd = os.path.join(os.environ.get("VERIF_SCRATCH") or vbuild.BUILD, "run", PID); nm = f"oracle{os.getpid()}"
+            out = run_exe(exe, [_call_line(n, a) for n, a in need], wd, nm)
+            for ext in (".cases", ".out", ".out.diag"):
+                try: os.remove(os.path.join(wd, nm + ext))
+                except OSError: pass
         except Exception:
             out = ["NOORACLE"] * len(need)
         for c, o in zip(need, out):
@@ -382,6 +395,120 @@ def gen_likseq(rng, n):
     return out
 
 
+# ---- sessions: requests of the likelihood family in one process, including requests outside the property's ranges
+def off_range_request(rng, k):
+    """a single-bin request (kind, s, k, b) outside the ranges of the property (Poisson means 1e-3..1e3, counts 0..500) that the library
+    answers without terminating the process (-inf, NaN, 0, ...): total expectation exactly 0 (nothing predicted at all; signal and
+    background cancelling), negative, far below / above the range, non-finite; or a count beyond 500 at an ordinary mean"""
+    r = rng.random()
+    if r < 0.40:
+        x = rng.choice([0.0, 0.0, -0.0, logu(rng, 1e-3, 1e3)])
+        s, b = (x, -x) if x != 0 else (x, rng.choice([0.0, -0.0]))
+    elif r < 0.60:
+        x = -logu(rng, 1e-3, 1e3); s, b = rng.choice([(x, 0.0), (0.0, x), (logu(rng, 1e-3, 1.0) * -x, x), (x, logu(rng, 1e-3, 1.0) * -x)])
+    elif r < 0.85:
+        x = rng.choice([5e-324, 1e-300, 1e-30, 1e-4, 1e4, 1e30, 1e300, math.inf, math.nan, -math.inf])
+        s, b = rng.choice([(x, 0.0), (0.0, x)])
+    else:
+        tot = lik_mean(rng); s, b = split_mean(rng, tot); k = rng.choice([501, 1000, 5000, k + 501])
+    if b == 0 and math.copysign(1.0, b) > 0 and rng.random() < 0.5: return ("L0", s, k, 0.0)
+    return ("L", s, k, b)
+
+
+def in_range_request(rng, k=None):
+    tot = lik_mean(rng); s, b = split_mean(rng, tot)
+    if k is None: k = lik_count(rng, tot)
+    if b == 0 and rng.random() < 0.5: return ("L0", s, k, 0.0)
+    return ("L", s, k, b)
+
+
+def small_histogram(rng, nb=None):
+    nb = rng.choice([1, 1, 2, 3, 5]) if nb is None else nb
+    s = []; b = []; k = []
+    k0 = rng.choice([None, None, rng.randint(0, 12)])        # flat in the counts: neighbouring bins (and the last and first bin) share it
+    for _ in range(nb):
+        tot = rng.choice([logu(rng, 1e-3, 1e3), logu(rng, 1e-2, 1e1)]); si, bi = split_mean(rng, tot)
+        s.append(si); b.append(bi); k.append(k0 if k0 is not None else lik_count(rng, tot))
+    return s, k, b
+
+
+def req_txt(q):
+    if q[0] == "L": return f"L {hx(q[1])} {q[2]} {hx(q[3])}"
+    if q[0] == "L0": return f"L0 {hx(q[1])} {q[2]}"
+    if q[0] == "B": return f"B {flist(q[1])} {ilist(q[2])} {flist(q[3])}"
+    return f"B0 {flist(q[1])} {ilist(q[2])}"
+
+
+STRENGTHS = [0.0, 0.25, 0.5, 1.0, 1.5, 2.0, 3.0, 5.0]
+
+
+def gen_liksess(rng, n, long_sizes=()):
+    out = []
+    plans = [(None, None)] * n + [("long", m) for m in long_sizes]
+    for plan, m_long in plans:
+        kind = rng.choice(["strength-scan", "strength-scan", "binned-strength-scan", "off-range-then-same-count", "off-range-then-same-count",
+                           "off-range-mixed", "down-and-up", "mixed", "mixed"]) if plan is None else rng.choice(["off-range-mixed", "strength-scan", "mixed"])
+        qs = []
+        if kind == "strength-scan":
+            # L(mu * s0, k, b) for mu = 0, ... : without background the first point has total expectation 0
+            k = rng.choice([0, 1, 2, 3, 7, rng.randint(0, 40), rng.randint(0, 500)]); s0 = logu(rng, 1e-2, 1e2)
+            b = rng.choice([0.0, 0.0, 0.0, logu(rng, 1e-3, 1e2)]); call = "L0" if (b == 0 and rng.random() < 0.5) else "L"
+            if rng.random() < 0.5: qs.append(in_range_request(rng))        # something else was evaluated before the scan
+            mus = STRENGTHS[:rng.randint(3, len(STRENGTHS))] if m_long is None else [8.0 * j / m_long for j in range(m_long)]
+            if rng.random() < 0.2: mus = mus[::-1]                           # towards 0
+            qs += [(call, mu * s0, k, b) for mu in mus]
+        elif kind == "binned-strength-scan":
+            s, k, b = small_histogram(rng)
+            call = rng.choice(["B0", "Bzero", "B", "B"])
+            if rng.random() < 0.5: qs.append(in_range_request(rng))
+            for mu in STRENGTHS[:rng.randint(3, len(STRENGTHS))]:
+                sm = [mu * x for x in s] if call == "B" else [mu * (x + y) for x, y in zip(s, b)]
+                if call == "B0": qs.append(("B0", sm, k))
+                elif call == "Bzero": qs.append(("B", sm, k, [0.0] * len(s) if rng.random() < 0.5 else []))
+                else: qs.append(("B", sm, k, b))
+        elif kind == "off-range-then-same-count":
+            # in-range, then an out-of-range request with a new count, then in-range requests with that count (and once more with another)
+            for _ in range(rng.choice([1, 1, 2, 3])):
+                q0 = in_range_request(rng); qs.append(q0)
+                k = rng.choice([2, 3, 5, rng.randint(2, 500), lik_count(rng, lik_mean(rng))])
+                qs.append(off_range_request(rng, k))
+                qs.append(in_range_request(rng, qs[-1][2] if qs[-1][2] <= 500 else k))
+                if rng.random() < 0.5: qs.append(in_range_request(rng, k))
+                if rng.random() < 0.3: qs.append(q0)
+        elif kind == "off-range-mixed":
+            m = rng.randint(3, 12) if m_long is None else m_long
+            for _ in range(m):
+                r = rng.random()
+                if r < 0.45: qs.append(in_range_request(rng, qs[-1][2] if (qs and qs[-1][0] in ("L", "L0") and qs[-1][2] <= 500 and rng.random() < 0.6) else None))
+                elif r < 0.75: qs.append(off_range_request(rng, lik_count(rng, lik_mean(rng))))
+                elif r < 0.9:
+                    s, k, b = small_histogram(rng); qs.append(("B", s, k, b))
+                else:
+                    # a histogram with bins nothing is predicted in, through the default background (mean 0 in those bins), or no bins at all
+                    s, k, b = small_histogram(rng, rng.choice([0, 1, 2, 4]))
+                    s = [0.0 if rng.random() < 0.6 else x for x in s]; qs.append(("B0", s, k) if rng.random() < 0.5 else ("B", s, k, []))
+        elif kind == "down-and-up":
+            k = rng.choice([0, 1, 2, 5, rng.randint(0, 60)]); s0 = logu(rng, 1e-2, 1e2); call = rng.choice(["L", "L0"])
+            seq = [2.0, 1.0, 0.5, 0.0, 0.0, 0.5, 1.0, 2.0] if rng.random() < 0.5 else [1.0, 0.0, 1.0, -0.5, 1.0, 0.0, 0.0, 1.0]
+            qs.append(in_range_request(rng))
+            qs += [(call, mu * s0, k, 0.0) for mu in seq]
+        else:
+            # in-range only: single-bin and binned requests interleaved, repeated, the same bin through both entry points
+            m = rng.randint(2, 10) if m_long is None else m_long
+            for _ in range(m):
+                r = rng.random()
+                if r < 0.35: qs.append(in_range_request(rng))
+                elif r < 0.5 and qs: qs.append(rng.choice(qs))
+                elif r < 0.65 and qs and qs[-1][0] in ("L", "L0"):
+                    q = qs[-1]; qs.append(("B", [q[1]], [q[2]], [q[3]]) if q[0] == "L" else ("B0", [q[1]], [q[2]]))
+                else:
+                    s, k, b = small_histogram(rng); call = rng.choice(["B", "B", "B0"])
+                    qs.append(("B", s, k, b) if call == "B" else ("B0", [x + y for x, y in zip(s, b)], k))
+        tags = ("lik", "session", kind) + (("long-run",) if m_long is not None else ())
+        out.append(Proto(f"liksess {len(qs)} " + " ".join(req_txt(q) for q in qs), (), tags))
+    return out
+
+
 def gen_binned(rng, n):
     """spectra with bin means s+b in 1e-3..1e3.  Shapes: generic; sparse (most bins carry no signal at all: s = 0.0 exactly, many of them
     empty); background only (every s = 0.0); flat (neighbouring bins share signal and count bit for bit, backgrounds differ); explicit
@@ -478,6 +605,44 @@ def gen_kde(rng, n, nmax):
     # automatic bandwidth on samples without spread
     out.append(Proto(f"kde 1 {hx(0.5)} {hx(1.0)} {hx(0.0)} {hx(1.0)} {hx(0.0)}", (), ("kde", "zero-variance")))
     out.append(Proto(f"kde 3 {hx(0.25)} {hx(1.0)} {hx(0.25)} {hx(2.0)} {hx(0.25)} {hx(1.0)} {hx(0.0)} {hx(1.0)} {hx(0.0)}", (), ("kde", "zero-variance")))
+    return out
+
+
+def gen_kde_far(rng, n, nmax):
+    """windows whose distance from the origin is 1e8 .. 1e12 window widths (the upper decades of what double abscissae can resolve with
+    150 tabulation points): time stamps with sub-second windows, narrow windows around a large dyadic or decimal value, unit windows
+    at 1e9 .. 1e12, both signs; samples uniform / piled up at the lower edge / central; weights; manual and automatic bandwidth"""
+    out = []
+    for i in range(n):
+        N = rng.choice([2, 3, 5, 8, 10, 12, 30, rng.randint(2, nmax)])
+        ratio = 10.0 ** (8 + 4 * ((i + rng.random()) / n))                  # a ladder over the four decades
+        form = rng.choice(["stamp", "dyadic", "decimal", "random"])
+        if form == "stamp":
+            lo = 1.7e9 + rng.randint(0, 10 ** 7) + rng.choice([0.0, 0.5, rng.random()]); width = 2.0 ** round(math.log2(lo / ratio))
+        elif form == "dyadic":
+            lo = 2.0 ** rng.randint(-20, 60); width = 2.0 ** round(math.log2(lo / ratio))
+        elif form == "decimal":
+            width = rng.choice([1.0, 1e-3, 30.0]); lo = float(round(ratio)) * width
+        else:
+            width = logu(rng, 1e-6, 1e6); lo = ratio * width
+        if rng.random() < 0.3: lo = -lo - width
+        hi = lo + width; width = hi - lo
+        if not (width > 0 and abs(lo) / width <= 1.001e12): continue
+        kind = rng.random()
+        if kind < 0.4: us = [rng.random() for _ in range(N)]
+        elif kind < 0.7: us = [abs(rng.gauss(0, 0.3)) for _ in range(N)]
+        else: us = [rng.gauss(0.5, 0.2) for _ in range(N)]
+        vals = [lo + width * u for u in us]
+        ws = [1.0] * N if rng.random() < 0.5 else [rng.uniform(0.2, 3.0) for _ in range(N)]
+        if len(set(vals)) < N: ws = [1.0] * N          # equal values carry equal weights (std::sort's order of ties is unspecified)
+        mean = math.fsum(vals) / N; sd = math.sqrt(math.fsum((v - mean) ** 2 for v in vals) / N)
+        data = " ".join(f"{hx(v)} {hx(w)}" for v, w in zip(vals, ws))
+        tags = ("kde", "offset", "far", form)
+        if rng.random() < 0.5 and sd > width / 20:
+            if rng.random() < 0.5: out.append(Proto(f"kde {N} {data} {hx(lo)} {hx(hi)} {hx(0.0)}", (), tags))
+            else: out.append(Proto(f"kde0 {N} {data} {hx(lo)} {hx(hi)}", (), tags + ("default-argument",)))
+        else:
+            out.append(Proto(f"kde {N} {data} {hx(lo)} {hx(hi)} {hx(width * logu(rng, 0.04, 0.5))}", (), tags))
     return out
 
 
@@ -632,6 +797,9 @@ def generate(rng, tier):
     protos += gen_kde_large(rng, 40 if big else 10, 2100 if big else 520)
     protos += gen_chibar_large(rng, 30 if big else 5, 401)
     protos += gen_whole_support(rng, 12 if big else 2)
+    # sessions with requests outside the ranges; windows far from the origin (third pass; drawn last for the same reason)
+    protos += gen_liksess(rng, 90 * f, sizes(rng, 12 if big else 3, 33, 3000 if big else 600))
+    protos += gen_kde_far(rng, 120 if big else 24, 150 if big else 40)
     return resolve(protos)
 
 
@@ -781,6 +949,92 @@ def pred_scan(op, t, head, extra, out):
             if L and x == 0 and not abs(c - min(1.0, w[0])) <= 4 * EPS: out.append((op + ":dof0", f"CDF(0) = {c!r}, the dof-0 weight is {w[0]!r}"))
 
 
+def _kde_unnormalised_scale(vals, wts, xmin, bw, xs, ys):
+    """the factor by which Perform_KDE divided its table: the kernel sum (with the Cowling-Hall pseudo data) before normalisation at the
+    abscissa of the largest returned ordinate, divided by that ordinate"""
+    try:
+        k = max(range(len(ys)), key=lambda i: ys[i]); x = xs[k]
+        d = sorted(zip(vals, wts)); N = len(d); sw = math.fsum(wts)
+        acc = []
+        for i, (v, w) in enumerate(d):
+            acc.append(w * math.exp(-0.5 * ((x - v) / bw) ** 2))
+            if i < int(N / 3.0):
+                xp = 4.0 * xmin - 6.0 * v + 4.0 * d[2 * i][0] - d[3 * i][0]; wp = (w + d[2 * i][1] + d[3 * i][1]) / 3.0
+                acc.append(wp * math.exp(-0.5 * ((x - xp) / bw) ** 2))
+        pre = math.fsum(acc) / math.sqrt(2 * math.pi) / (bw * sw)
+        return pre / ys[k] if ys[k] > 0 and pre > 0 else None
+    except (OverflowError, ZeroDivisionError, ValueError):
+        return None
+
+
+def _requested_quadrature(xs, ys, mids, quarters, xmin, xmax, scale):
+    """Integrate(f, xmin, xmax, 1e-8 / scale) by the adaptive Simpson rule of Integration.cpp (bisection, acceptance |S2 - S| <= 15 eps,
+    eps halved per level, Richardson step, 20 levels), f = the returned estimate given by five ordinates on each of its cubic segments.
+    The rule is homogeneous: on the table before normalisation (f * scale) with 1e-8 it returns scale times this value."""
+    if scale is None or len(quarters) != 2 * (len(xs) - 1) or not all(isinstance(v, float) for v in quarters): return None
+    import bisect
+    n = len(xs)
+
+    budget = [400000]
+
+    def f(x):
+        budget[0] -= 1
+        if budget[0] < 0: raise ValueError
+        j = min(max(bisect.bisect_right(xs, x) - 1, 0), n - 2)
+        h = xs[j + 1] - xs[j]
+        xn = (xs[j], xs[j] + h / 4, xs[j] + h / 2, xs[j] + 0.75 * h, xs[j + 1])
+        yn = (ys[j], quarters[2 * j], mids[j], quarters[2 * j + 1], ys[j + 1])
+        u = x - xs[j]; un = [a - xs[j] for a in xn]
+        if len(set(un)) < 5: raise ValueError
+        tot = 0.0
+        for i in range(5):
+            li = 1.0
+            for m in range(5):
+                if m != i: li *= (u - un[m]) / (un[i] - un[m])
+            tot += yn[i] * li
+        return tot
+
+    def rec(a, b, eps, S, fa, fb, fc, bottom):
+        c = (a + b) / 2; h = b - a; d = (a + c) / 2; e = (b + c) / 2
+        fd = f(d); fe = f(e)
+        Sl = (h / 12) * (fa + 4 * fd + fc); Sr = (h / 12) * (fc + 4 * fe + fb); S2 = Sl + Sr
+        if bottom <= 0 or abs(S2 - S) <= 15 * eps: return S2 + (S2 - S) / 15
+        return rec(a, c, eps / 2, Sl, fa, fc, fd, bottom - 1) + rec(c, b, eps / 2, Sr, fc, fb, fe, bottom - 1)
+    try:
+        a, b = xmin, xmax; c = (a + b) / 2; h = b - a
+        fa, fb, fc = f(a), f(b), f(c)
+        return rec(a, b, 1e-8 / scale, (h / 6) * (fa + 4 * fc + fb), fa, fb, fc, 20)
+    except (ValueError, ZeroDivisionError, OverflowError, RecursionError):
+        return None
+
+
+def _parse_session(t):
+    """requests of a liksess line: (kind, s, n, b) for L / L0 (b = 0.0), (kind, S, N, B) for B / B0 (B = [])"""
+    m = int(t[1]); i = 2; qs = []
+    for _ in range(m):
+        kind = t[i]; i += 1
+        if kind in ("L", "L0"):
+            sv = tokf(t[i]); n = int(t[i + 1]); i += 2
+            b = 0.0
+            if kind == "L": b = tokf(t[i]); i += 1
+            qs.append((kind, sv, n, b))
+        else:
+            ns = int(t[i]); S = [tokf(x) for x in t[i + 1:i + 1 + ns]]; i += 1 + ns
+            no = int(t[i]); N = [int(x) for x in t[i + 1:i + 1 + no]]; i += 1 + no
+            B = []
+            if kind == "B":
+                nb = int(t[i]); B = [tokf(x) for x in t[i + 1:i + 1 + nb]]; i += 1 + nb
+            qs.append((kind, S, N, B))
+    return qs
+
+
+def _req_show(q):
+    if q[0] == "L": return f"Log_Likelihood_Poisson({q[1]!r}, {q[2]}, {q[3]!r})"
+    if q[0] == "L0": return f"Log_Likelihood_Poisson({q[1]!r}, {q[2]})"
+    if q[0] == "B": return f"Log_Likelihood_Poisson_Binned({q[1][:4]}{'...' if len(q[1]) > 4 else ''}, {q[2][:4]}, {q[3][:4]})"
+    return f"Log_Likelihood_Poisson_Binned({q[1][:4]}{'...' if len(q[1]) > 4 else ''}, {q[2][:4]})"
+
+
 def predicates(c, io):
     out = []
     t = c.line.split(); op = t[0]
@@ -885,6 +1139,32 @@ def predicates(c, io):
             if not abs(lk - pm) <= (64 * EPS * mag + 8 * EPS) * pm + 1e-320: out.append((op + ":is-pmf", f"Likelihood_Poisson({s!r},{n},{b!r}) = {lk!r} but PMF_Poisson(s+b, n) = {pm!r}{where}"))
             if pm > 1e-300 and not abs(ll - math.log(pm)) <= 64 * EPS * mag + 8 * EPS: out.append((op + ":is-log-pmf", f"Log_Likelihood = {ll!r} but ln PMF_Poisson(s+b, n) = {math.log(pm)!r}{where}"))
             if not abs(ll - ref) <= 64 * EPS * mag + 8 * EPS: out.append((op + ":is-log-pmf", f"Log_Likelihood_Poisson({s!r},{n},{b!r}) = {ll!r} but ln(e^-mu mu^n / n!) at mu = s+b is {ref!r}{where}"))
+    elif op == "liksess":
+        qs = _parse_session(t)
+        bad = [q for q in qs if q[0] in ("B", "B0") and (len(q[2]) != len(q[1]) or (len(q[3]) != len(q[1]) and len(q[3]) != 0))]
+        if bad:
+            if not exited: out.append((op + ":guard", "a binned request with lists of different sizes was accepted"))
+            return out
+        if exited: return [(op + ":exit", "a session of well-formed requests terminated the process")]
+        if len(head) != 2 * len(qs): return [(op + ":shape", f"expected {2*len(qs)} values, got {len(head)}")]
+        for i, q in enumerate(qs):
+            ll, lk = head[2 * i], head[2 * i + 1]
+            bins = [(q[1], q[2], q[3])] if q[0] in ("L", "L0") else list(zip(q[1], q[2], q[3] if q[3] else [0.0] * len(q[1])))
+            # clauses are evaluated on the requests inside the property's ranges (every bin mean in 1e-3..1e3, every count in 0..500)
+            if not bins or not all(1e-3 <= x + y <= 1001.0 and 0 <= k <= 500 for x, k, y in bins): continue
+            refs = []; slack = 0.0
+            for x, k, y in bins:
+                mu = x + y
+                refs.append(k * math.log(mu) - mu - math.lgamma(k + 1))
+                slack += 64 * EPS * (abs(k * math.log(mu)) + mu + math.lgamma(k + 1)) + 8 * EPS
+            ref = math.fsum(refs)
+            if len(bins) > 1: slack += 4 * EPS * (len(bins) + 1) * math.fsum(abs(x) for x in refs)
+            prev = "first request of the session" if i == 0 else f"request {i+1} of {len(qs)}, asked right after {_req_show(qs[i-1])}"
+            if not abs(ll - ref) <= slack:
+                out.append((op + ":is-log-pmf", f"{_req_show(q)} returned the log-likelihood {ll!r} but the sum over the bins of ln PMF_Poisson(s+b, n) is {ref!r} ({prev})"))
+            if not abs(lk - math.exp(ref)) <= (slack + 4 * EPS) * math.exp(ref) + 1e-320 + (len(bins) + 1) * 5e-324:
+                out.append((op + ":is-pmf", f"{_req_show(q)} returned the likelihood {lk!r} but the product over the bins of PMF_Poisson(s+b, n) is {math.exp(ref)!r} ({prev})"))
+            if not abs(lk - math.exp(ll)) <= 4 * EPS * lk: out.append((op + ":exp-of-log", f"{_req_show(q)}: likelihood {lk!r} but exp(log-likelihood) = {math.exp(ll)!r} ({prev})"))
     elif op in ("binned", "binned0"):
         ns = int(t[1]); no = int(t[2 + ns]); nb = int(t[3 + ns + no]) if op == "binned" else 0
         if no != ns or (nb != ns and nb != 0):
@@ -935,12 +1215,29 @@ def predicates(c, io):
         # requested: Integrate(..., 1e-8) absolute on an integral of order 0.01..2, i.e. 1e-6 relative.  Beyond it the clause fails;
         # the signature separates the regions: narrow kernels (the quadrature can miss the peaks altogether), an inaccurate
         # quadrature (error up to 1e-2: the adaptive Simpson error estimate is unreliable on the C1 interpolant), and a plain loss of normalisation
+        # Far from the origin the abscissae exist only to ulp(x): the normalising quadrature samples the interpolant at bisection points
+        # (a+b)/2 that are rounded by up to ulp/2, so each accepted Simpson panel [a,b] errs by up to 4/6 (b-a) |f'| ulp/2; summed over the
+        # panels: ulp/3 times the total variation of the estimate, times 17/15 for the Richardson step; granted: ulp/2 * total variation
+        # (relative to the integral 1; 1e-21 near the origin, 1e-4 at |x|/width = 1e12 where the grid step is only 30 ulp)
+        seq = [ys[0]]
+        for j in range(pts - 1): seq += [mids[j], ys[j + 1]]
+        if not max(seq) < 1e300: far_norm = math.inf
+        else: far_norm = 0.5 * math.ulp(max(abs(xmin), abs(xmax))) * math.fsum(abs(b - a) for a, b in zip(seq, seq[1:])) / max(integ, 1e-300)
         err = abs(integ - 1)
-        if not err <= 1e-6:
-            sig = op + ":normalised" + (region if region else (":quadrature-accuracy" if err <= 1e-2 else ""))
-            out.append((sig, f"the estimate integrates to {integ!r} over its window (bandwidth {bw!r}, window width {xmax-xmin!r})"))
+        if not err <= 1e-6 + far_norm:
+            # K-C07-1, second part: with kernels of ordinary width the adaptive Simpson rule that normalises the estimate (requested accuracy
+            # 1e-8) now and then accepts a panel too early and the estimate integrates to 1 +- 1e-6 .. 1e-3.  A deviation gets the signature
+            # of that finding only if it IS that rule's error: the rule, re-run here on the returned estimate with the tolerance scaled like
+            # the estimate, must return 1.  Any other loss of normalisation keeps the plain signature.
+            sig = op + ":normalised" + region
+            if not region and err <= 1e-2:
+                q = _requested_quadrature(xs, ys, mids, extra[pts:pts + 2 * (pts - 1)], xmin, xmax, _kde_unnormalised_scale(vals, wts, xmin, bw, xs, ys))
+                if q is not None and abs(q - 1) <= 1e-9: sig += ":quadrature-accuracy"
+            out.append((sig, f"the estimate integrates to {integ!r} over its window [{xmin!r}, {xmax!r}] (bandwidth {bw!r}, window width {xmax-xmin!r}, "
+                             f"|xmin|/width {abs(xmin)/(xmax-xmin):.3g}, rounding allowance {1e-6 + far_norm:.3g})"))
         # Interpolation::Integrate differences the segment antiderivatives ... + d_j * x taken at the two segment ends: two numbers of
         # magnitude |y_j x_j| each rounded a few times (8 eps), per segment; negligible near the origin, eps * |x| / width far from it
+        if not max(seq) < 1e300: return out
         far = 8 * EPS * math.fsum(max(abs(ys[j]), abs(ys[j + 1])) * max(abs(xs[j]), abs(xs[j + 1])) for j in range(pts - 1))
         if not abs(libint - integ) <= 1e-9 * max(1.0, abs(integ)) + far: out.append((op + ":integral", f"Interpolation::Integrate gives {libint!r}, exact Simpson on the cubic segments {integ!r}"))
     return out
@@ -964,6 +1261,7 @@ def nontrivial(c, io):
     if op == "lik0": return int(t[2]) >= 50 or tokf(t[1]) >= 100
     if op == "likseq": return int(t[1]) >= 2
     if op in ("binned", "binned0"): return int(t[1]) >= 2
+    if op == "liksess": return int(t[1]) >= 2
     if op in ("kde", "kde0"): return int(t[1]) >= 3
     if op == "gauss2d": return head[0] < 1e-6
     return False
